@@ -89,6 +89,7 @@ def load(repo="/repo"):
                 props[name] = dict(name=name, vocab=prefix, impldir=impldir, uri=uri,
                                    domain=ref_names(m.get("domain")), range=ref_names(m.get("range")),
                                    functional="owl:FunctionalProperty" in as_list(m.get("type")),
+                                   without_types=ref_names(m.get("@wtf_without_property")),
                                    raw_range=m.get("range"))
     return types, props
 
@@ -181,6 +182,107 @@ def emit_c13(types, anc, desc, disj, out):
     open(out, "w").write("\n".join(lines) + "\n")
 
 
+
+VALUE_VOCAB = dict(string="XMLSchema", dateTime="XMLSchema", boolean="XMLSchema", float="XMLSchema", nonNegativeInteger="XMLSchema",
+                   anyURI="XMLSchema", duration="XMLSchema", langString="RDF", bcp47="RFC", rfc2045="RFC", rfc5988="RFC")
+
+
+def cap(s):
+    return s[0].upper() + s[1:]
+
+
+def emit_c12(repo, types, props, anc, desc, out):
+    """C12: which properties each type has and which value kinds each property admits, from the ontology
+    files alone; compared with the DECLARATIONS of the generated structs (structural lemma, reported by
+    name) and turned into contracts for the type-level accessors (verified by govc against the bodies)."""
+    import glob, re
+    sys.path.insert(0, os.path.dirname(os.path.abspath(__file__)))
+    import containers
+    bad = []
+    L = ["# GENERATED on every run by /verif/oracle/ontology.py from /repo/astool/*.jsonld -- C12 contracts", ""]
+    nfun = 0
+    # ---- (1) each type has exactly its ontology's properties (+ id, + type unless typeless)
+    for t in sorted(types):
+        d = types[t]
+        line = {t} | anc[t]
+        exp = set()
+        for pn, pd in props.items():
+            if set(pd["domain"]) & line and not (set(pd.get("without_types") or []) & line):
+                exp.add(pd["vocab"] + cap(pn))
+        exp.add("JSONLDId")
+        if not d["typeless"]:
+            exp.add("JSONLDType")
+        path = glob.glob(os.path.join(repo, "streams/impl/%s/type_%s/gen_type_*.go" % (d["impldir"], t.lower())))
+        if not path:
+            bad.append("no generated package for type " + t)
+            continue
+        src = open(path[0]).read()
+        sname = d["vocab"] + t
+        m = re.search(r"^type %s struct \{\n(.*?)^\}" % sname, src, re.M | re.S)
+        have = set()
+        for ln in m.group(1).split("\n"):
+            ps = ln.split()
+            if len(ps) == 2 and ps[1].startswith("vocab.") and ps[1].endswith("Property"):
+                have.add(ps[0])
+                if ps[1] != "vocab." + ps[0] + "Property":
+                    bad.append("%s.%s has type %s" % (sname, ps[0], ps[1]))
+        for x in sorted(exp - have):
+            bad.append("type %s lacks the property %s the ontology gives it" % (sname, x))
+        for x in sorted(have - exp):
+            bad.append("type %s has the property %s the ontology does not give it" % (sname, x))
+        pkg = "streams/impl/%s/type_%s" % (d["impldir"], t.lower())
+        for x in sorted(exp & have):
+            L.append("func (%s.%s).Get%s" % (pkg, sname, x))
+            L.append("  [C12] ensures returns_the_property_held: result == this.%s" % x)
+            L.append("func (*%s.%s).Set%s" % (pkg, sname, x))
+            L.append("  params this, i")
+            L.append("  modifies H:%s.%s.%s[this]" % (pkg, sname, x))
+            L.append("  [C12] ensures holds_the_property_given: this.%s == i" % x)
+            nfun += 2
+    # ---- (2) each property admits exactly the kinds in its declared range (a ranged type with all its descendants), is
+    # functional iff declared so, and is a natural-language property iff its range has rdf:langString
+    for pn in sorted(props):
+        pd = props[pn]
+        exp = set()
+        for r in pd["range"]:
+            if r in types:
+                for x in {r} | desc[r]:
+                    exp.add((types[x]["vocab"] + x).lower())
+            elif r in VALUE_VOCAB:
+                exp.add((VALUE_VOCAB[r] + cap(r)).lower())
+            else:
+                bad.append("property %s: unknown range entry %s" % (pn, r))
+        path = glob.glob(os.path.join(repo, "streams/impl/%s/property_%s/gen_property_*.go" % (pd["impldir"], pn.lower())))
+        if not path:
+            bad.append("no generated package for property " + pn)
+            continue
+        pkg, structs, methods = containers.parse(path[0])
+        pname = pd["vocab"] + cap(pn) + "Property"
+        if pname not in structs:
+            bad.append("property %s: struct %s not found" % (pn, pname))
+            continue
+        fields = structs[pname]
+        is_seq = [f for f, _ in fields] == ["properties", "alias"]
+        if is_seq == bool(pd["functional"]):
+            bad.append("property %s is declared %s but generated as %s" % (pn, "functional" if pd["functional"] else "non-functional", "a sequence" if is_seq else "a single slot"))
+        slotname = pname + "Iterator" if is_seq else pname
+        have = set()
+        for f, tname in structs.get(slotname, []):
+            if f.endswith("Member") and not f.startswith("has"):
+                have.add(f[:-len("Member")].lower())
+        for x in sorted(exp - have):
+            bad.append("property %s does not admit the kind %s of its declared range" % (pn, x))
+        for x in sorted(have - exp):
+            bad.append("property %s admits the kind %s outside its declared range" % (pn, x))
+        names = [f for f, _ in structs.get(slotname, [])]
+        anyuri_kind = "xmlschemaanyuri" in exp  # an IRI is then held as the xsd:anyURI kind itself
+        if "iri" not in names and not anyuri_kind:
+            bad.append("property %s does not admit an IRI" % pn)
+        if ("langString" in pd["range"]) != ("rdflangstring" in have):
+            bad.append("property %s: natural-language map form does not follow the declared range" % pn)
+    open(out, "w").write("\n".join(L) + "\n")
+    return bad, nfun
+
 def emit_c14(types, out):
     """C14: which callback signature belongs to which (vocabulary URI, type name): derived from the ontology
     files only.  specfuns are expanded where the contracts in /repo/streams/verif_contracts.go use them.
@@ -231,6 +333,9 @@ if __name__ == "__main__":
         emit_c13(types, anc, desc, disj, sys.argv[3])
         print(json.dumps(dict(types=len(types), properties=len(props), lemma_failures=bad,
                               pairs=len(types) ** 2)))
+    elif sys.argv[1] == "c12":
+        bad, nfun = emit_c12(repo, types, props, anc, desc, sys.argv[3])
+        print(json.dumps(dict(types=len(types), properties=len(props), type_accessor_contracts=nfun, lemma_failures=bad)))
     elif sys.argv[1] == "c14":
         emit_c14(types, sys.argv[3])
         bad = []
